@@ -513,8 +513,11 @@ Definition response_parts (ok : bool) (args : bytes) (b : resp_body) : list p3_p
    loops (_read_more, read_body_bytes, read_streamed_body): ask the decoder for
    next_read_size(), read, accept_bytes, until finished.  The transport may
    deliver any number of bytes between 1 and the request ("short read"): the
-   i-th read delivers 1 + (pol_i mod hint) bytes.  A read that asks for more
-   bytes than remain in [stream] blocks for ever on a pipe. *)
+   i-th read delivers [rl_amount pol_i hint] bytes (0 = the full request,
+   k > 0 = 1 + (k-1) mod hint).  A read that asks for more bytes than remain
+   in [stream] blocks for ever on a pipe. *)
+Definition rl_amount (k : N) (h : Z) : nat :=
+  Z.to_nat (if (k =? 0)%N then h else 1 + Z.of_N (k - 1) mod h)%Z.
 Inductive rl_result (St : Type) :=
 | RlFinished (s : St) (left_over : bytes)     (* decoder reported completion *)
 | RlWouldBlock (s : St) (asked : Z) (available : nat)
@@ -526,14 +529,14 @@ Section ReadLoop.
   Variable accept : St -> bytes -> St.
   Variable hint : St -> Z.           (* next_read_size *)
   Variable finished : St -> bool.    (* the loop's exit test *)
-  Fixpoint read_loop (pol : list nat) (s : St) (stream : bytes) : rl_result St :=
+  Fixpoint read_loop (pol : list N) (s : St) (stream : bytes) : rl_result St :=
     if finished s then RlFinished s stream else
     match pol with
     | [] => RlOutOfPolicy s stream
     | k :: pol' =>
         let h := hint s in
         if (Z.of_nat (length stream) <? h)%Z then RlWouldBlock s h (length stream)
-        else let n := S (k mod Z.to_nat h) in
+        else let n := rl_amount k h in
              read_loop pol' (accept s (firstn n stream)) (skipn n stream)
     end.
 End ReadLoop.
@@ -619,24 +622,24 @@ Section RlObs.
   Variable accept : St -> bytes -> St.
   Variable hint : St -> Z.
   Variable finished : St -> bool.
-  Fixpoint rl_sizes (pol : list nat) (s : St) (stream : bytes) : list obs :=
+  Fixpoint rl_sizes (pol : list N) (s : St) (stream : bytes) : list obs :=
     if finished s then [OT "finished"; onat (length stream)] else
     match pol with
     | [] => [OT "out-of-policy"]
     | k :: pol' =>
         let h := hint s in
         if (Z.of_nat (length stream) <? h)%Z then [OT "would-block"; oZ h; onat (length stream)]
-        else let n := S (k mod Z.to_nat h) in
+        else let n := rl_amount k h in
              OL [oZ h; onat n] :: rl_sizes pol' (accept s (firstn n stream)) (skipn n stream)
     end.
 End RlObs.
 Definition p3_hintZ (s : p3_state) : Z := match p3_hint s with Some z => z | None => (-1)%Z end.
 Definition p3_stop (s : p3_state) : bool := (p3_hintZ s =? 0)%Z.
-Definition run_rl_lp (stream : bytes) (pol : list nat) : obs :=
+Definition run_rl_lp (stream : bytes) (pol : list N) : obs :=
   OL (rl_sizes _ lp_accept lp_hint lp_finished pol lp_init stream).
-Definition run_rl_ck (stream : bytes) (pol : list nat) : obs :=
+Definition run_rl_ck (stream : bytes) (pol : list N) : obs :=
   OL (rl_sizes _ ck_accept ck_hint ck_finished pol ck_init stream).
-Definition run_rl_p3 (client : bool) (stream : bytes) (pol : list nat) : obs :=
+Definition run_rl_p3 (client : bool) (stream : bytes) (pol : list N) : obs :=
   OL (rl_sizes _ p3_accept p3_hintZ p3_stop pol (if client then p3_init_client else p3_init_server) stream).
 
 (* tuple and offsets codecs *)
